@@ -1,3 +1,4 @@
+import LalrpopModel.Props.LRPrefixThms
 import LalrpopModel.Props.LRGenericThms
 /-!
 C05 — Expected-token lists name only tokens that could actually continue the input.
@@ -7,6 +8,6 @@ The theorems deciding this property (audited by `checks/c05.py` with `#print axi
 * `expected_nodup_sorted`: every expected list is strictly increasing (no duplicates), its members are `< nRepr`,
   so with recovery on it never names the error terminal.
 * `expected_mem_iff`: `a` is listed iff the `accepts` simulation over the whole state stack ends in a shift/accept.
-* Props/LRPrefixThms (when present): `expected_sound`.
+* Props/LRPrefixThms: `expected_sound`.
 The recursive-ascent list is the action row of the error state (modelled by `runx`); its over-breadth is a known finding.
 -/
